@@ -93,7 +93,7 @@ func runC17Followup(c *Ctx) {
 						if cerr != nil {
 							panic(cerr)
 						}
-						defer conn.Close()
+						defer closeSoon(conn)
 						run := func(k int, explicit bool) {
 							q := "UPDATE " + table + " SET n = 7 WHERE id = ?"
 							if explicit {
